@@ -353,6 +353,17 @@ class CallListerVisitor(ast.NodeVisitor):
 
     visit_Lambda = visit_AsyncFunctionDef = visit_FunctionDef
 
+    def visit_loop(self, node):
+        # what one iteration does to the names holds for the next one: the
+        # body is gone through once for that, then once more for its calls
+        ncalls, nrevisit = len(self.calls), len(self.to_revisit)
+        self.generic_visit(node)
+        del self.calls[ncalls:]
+        del self.to_revisit[nrevisit:]
+        self.generic_visit(node)
+
+    visit_For = visit_AsyncFor = visit_While = visit_loop
+
     def visit_Nonlocal(self, node):
         for name in node.names:
             self.namespace.add_nonlocal(name)
